@@ -59,7 +59,7 @@ theorem emitBindingSet_t (cfg : Cfg) (c : IdClass) (h : Nat) : HasHt (emitBindin
   cases c <;> simp only [emitBindingSet, if_true]
   case const s =>
     split
-    · ht_chain
+    · simp only [cat]; ht_chain
     · simp; exact HasHt.nil
   all_goals ht_chain
 
@@ -68,7 +68,7 @@ theorem emitBindingSet_f (cfg : Cfg) (c : IdClass) (h : Nat) :
   cases c <;> simp only [emitBindingSet, Bool.false_eq_true, if_false]
   case const s =>
     split
-    · ht_chain
+    · simp only [cat]; ht_chain
     · simp; ht_chain
   all_goals ht_chain
 
